@@ -4,6 +4,9 @@ import random
 from .. import bootstrap  # noqa: F401
 from .. import inject
 
+import usim
+import usim.py as usimpy
+from usim.py.exceptions import Interrupt as UsimInterrupt
 from usim import Queue, StreamClosed, time, instant
 
 PROPERTY = 'C10'
@@ -80,7 +83,7 @@ def make_case(seed, index, tier):
     consumers = []
     for number in range(rng.randint(1, 5)):
         consumers.append({'name': 'c%d' % number,
-                          'mode': rng.choice(['get', 'get', 'iter', 'iter+get']),
+                          'mode': rng.choice(['get', 'get', 'iter', 'iter+get', 'process']),
                           'count': rng.randint(1, 5), 'offset': rng.choice(GRID),
                           'work': rng.choice([0, 0, 0.5, 1])})
     return {'seed': seed, 'index': index, 'tier': tier,
@@ -101,6 +104,7 @@ class QueueChecker:
         self.received = []         # (item, consumer)
         self.pending = []          # consumers waiting, in request order
         self.closed = False
+        self.allow_lost = 0        # receives of struck process consumers that may have happened
         self.stats = {'items_received': 0, 'gets_waited': 0, 'gets_closed': 0,
                       'puts_rejected': 0, 'withdrawn': 0, 'puts_interrupted': 0,
                       'contended_receives': 0}
@@ -168,7 +172,9 @@ class QueueChecker:
         elif item in self.rejected:
             self.violation('rejected-item-received', 'item %s of a rejected put received' % item)
         else:
-            expected = self.buffered()
+            transit = self.in_transit()
+            expected = [other for other in self.buffered() if other == item
+                        or other not in transit]
             if expected and expected[0] != item:
                 self.violation('fifo', '%s received %s but the oldest buffered item is %s' % (
                     who, item, expected[0]))
@@ -181,10 +187,26 @@ class QueueChecker:
             self.pending.remove(who)
         if not self.closed:
             self.violation('closed-while-open', '%s got StreamClosed but nobody closed' % who)
-        left = self.buffered()
+        transit = self.in_transit()
+        left = [item for item in self.buffered() if item not in transit]
         if left:
             self.violation('closed-while-buffered',
                            '%s got StreamClosed while %s are still buffered' % (who, left))
+
+    def struck_with_open_get(self, who):
+        """an operation that did not complete may or may not have taken effect: an item that
+        vanished from the buffer with the struck consumer counts as taken by it"""
+        if who in self.pending:
+            self.pending.remove(who)
+        self.allow_lost += 1
+        self.stats['struck_process_receives'] = self.stats.get('struck_process_receives', 0) + 1
+
+    def in_transit(self):
+        """items that have left the real buffer but have not been reported as received yet:
+        a process of the compatibility layer takes an item in one activation and hands it to
+        its generator in a later one"""
+        real = [unwrap(item) for item in self.queue._buffer]
+        return [item for item in self.buffered() if item not in real]
 
     def withdrawn(self, who):
         self.arena.log(who, 'withdrawn')
@@ -198,10 +220,12 @@ class QueueChecker:
         final = [item if item is not None else (pending_nones.pop(0) if pending_nones else None)
                  for item in final]
         got = [item for item, _ in self.received]
-        for item in self.put_done:
-            if item not in got and item not in final and item not in self.rejected:
-                self.violation('lost', 'item %s of a completed put was neither received nor is '
-                                       'it still buffered' % item)
+        lost = [item for item in self.put_done
+                if item not in got and item not in final and item not in self.rejected]
+        if len(lost) > self.allow_lost:
+            self.violation('lost', 'items %s of completed puts were neither received nor are '
+                                   'they still buffered (%d receives of struck process consumers '
+                                   'may account for as many)' % (lost, self.allow_lost))
         for item in final:
             if item in got:
                 self.violation('duplicate', 'item %s was received and is still buffered' % item)
@@ -298,10 +322,59 @@ def build_for(case):
         def consumer(spec):
             name = spec['name']
 
+            async def run_process():
+                # the consumer is a process of the SimPy compatibility layer (`item = yield
+                # queue`); "interrupt" strikes call process.interrupt()
+                env = usimpy.Environment()
+
+                state = {'open': False}
+
+                def receiver():
+                    count = 0
+                    while count < spec['count']:
+                        checker.get_start(name)
+                        state['open'] = True
+                        try:
+                            item = unwrap((yield queue))
+                        except UsimInterrupt:
+                            checker.withdrawn(name)
+                            continue
+                        except StreamClosed:
+                            checker.get_closed(name)
+                            return
+                        except BaseException:
+                            checker.withdrawn(name)
+                            raise
+                        state['open'] = False
+                        checker.got(name, item)
+                        checker.stats['gets_waited'] += 1
+                        checker.stats['process_receives'] = checker.stats.get(
+                            'process_receives', 0) + 1
+                        count += 1
+                        if spec['work']:
+                            try:
+                                yield env.timeout(spec['work'])
+                            except UsimInterrupt:
+                                pass
+                try:
+                    async with env:
+                        process = env.process(receiver())
+                        arena.custom_interrupt[name] = \
+                            lambda: process.interrupt('struck') if process.is_alive else None
+                        await process
+                finally:
+                    arena.custom_interrupt.pop(name, None)
+                    if state['open']:
+                        # the activity hosting the process was struck while a receive was open:
+                        # the layer may have taken an item that the generator never got to see
+                        checker.struck_with_open_get(name)
+
             async def run():
                 if spec['offset']:
                     await (time + spec['offset'])
-                if spec['mode'] == 'get':
+                if spec['mode'] == 'process' and not case.get('nones'):
+                    await run_process()
+                elif spec['mode'] in ('get', 'process'):
                     for _ in range(spec['count']):
                         checker.get_start(name)
                         try:
@@ -349,7 +422,25 @@ def build_for(case):
         participants = [(spec['name'], producer(spec)) for spec in scenario['producers']]
         participants += [(spec['name'], consumer(spec)) for spec in scenario['consumers']]
         order = random.Random(case['index']).sample(participants, len(participants))
-        return order, (), checker
+        background = []
+        if case['index'] % 3 == 0:
+            # another, independent queue is busy at the same time: queues share nothing
+            other = Queue()
+
+            async def elsewhere():
+                async def taker():
+                    async for _ in other:
+                        await (time + 0.5)
+
+                async with usim.Scope() as scope:
+                    scope.do(taker(), volatile=True)
+                    scope.do(taker(), volatile=True)
+                    for number in range(8):
+                        await other.put('other-%d' % number)
+                        await (time + 0.5)
+                    await other.close()
+            background.append(elsewhere())
+        return order, background, checker
     return build
 
 
